@@ -889,6 +889,10 @@ Proof.
   - intros [S C]. unfold check_op_graph in H. rewrite (cycle_rejected _ _ S C) in H. discriminate.
   - apply hier_ok_wellformed; assumption.
   - apply (option_gen_ok_wellformed fixed_F5); [|exact H]. destruct k; try exact I. exact G5.
+  - unfold check_edge_template, check_op_graph in H.
+    destruct (toposort (map oname ops) (op_edges ops)) eqn:T; [|discriminate].
+    destruct (Nat.eqb (count_sinks ops) 1) eqn:C; [|discriminate]. split; [|apply Nat.eqb_eq, C].
+    intros [S Cy]. rewrite (cycle_rejected _ _ S Cy) in T. discriminate.
 Qed.
 
 Lemma impl_warn : forall p, impl p = Warn -> warn_suffices p = true.
@@ -911,6 +915,8 @@ Proof.
   - unfold check_op_graph in H. destruct (toposort _ _); discriminate.
   - apply hier_warn, H.
   - exfalso. exact (option_not_warn _ _ H).
+  - unfold check_edge_template, check_op_graph in H. destruct (toposort _ _); [|discriminate].
+    destruct (Nat.eqb _ _); discriminate.
 Qed.
 
 Theorem malformed_is_loud : forall p, WFprobe p -> guard p = true -> ~ WellFormed p -> loud_enough p (impl p).
@@ -965,6 +971,10 @@ Proof.
     + split; [discriminate | intros [_ E]; discriminate].
     + split; [discriminate | intros [E _]; congruence].
     + split; [discriminate | intros [E _]; congruence].
+  - destruct (toposort (map oname ops) (op_edges ops)) eqn:T.
+    + rewrite Nat.eqb_eq. split; [intros C; split; [|exact C] | intros [_ C]; exact C].
+      intros [S Cy]. rewrite (cycle_rejected _ _ S Cy) in T. discriminate.
+    + split; [discriminate|]. intros [H _]. exfalso. apply H, toposort_none_iff, T.
 Qed.
 
 (* the test applied to an observed outcome is the property *)
@@ -979,6 +989,17 @@ Qed.
 (* ---- the full-strength statement and its refutation (F1 and F2 were repaired by D48 / D49) ---- *)
 Definition C20_full_statement : Prop := forall p, WFprobe p -> impl p = Ok -> WellFormed p.
 
+(* an edge template with two output operators (or a cycle) => PyRatesException *)
+Theorem edge_template_sinks : forall ops, check_edge_template ops = Ok -> count_sinks ops = 1.
+Proof.
+  intros ops H. unfold check_edge_template in H. destruct (check_op_graph ops); try discriminate.
+  destruct (Nat.eqb (count_sinks ops) 1) eqn:C; [apply Nat.eqb_eq, C | discriminate].
+Qed.
+Theorem edge_template_two_outputs_rejected : forall ops, 2 <= count_sinks ops -> check_edge_template ops = Err EPyRates.
+Proof.
+  intros ops H. unfold check_edge_template, check_op_graph. destruct (toposort _ _); [|reflexivity].
+  destruct (Nat.eqb (count_sinks ops) 1) eqn:C; [apply Nat.eqb_eq in C; lia | reflexivity].
+Qed.
 Lemma refute_by : forall p, wfprobeb p = true -> impl p = Ok -> wellformedb p = false -> ~ C20_full_statement.
 Proof.
   intros p W Hi NW H. pose proof (wfprobeb_WF p W) as W'.
